@@ -121,12 +121,23 @@ func main() {
 		n, _ := strconv.Atoi(a[4])
 		total, _ := strconv.Atoi(a[5])
 		dl, _ := strconv.ParseInt(a[6], 10, 64)
+		// hard watchdog: the deadline is looked at between runs only; a run that never returns
+		// (the library under test blocks, or the baton of the scheduler is lost to a goroutine
+		// the library started) must end as harness trouble (exit 2), not as a hang
+		go func() {
+			time.Sleep(time.Until(time.Unix(0, dl)) + 120*time.Second)
+			fatal2("watchdog: worker %d/%d of %s still inside one run 120 s after its deadline (a run hangs: the library under test blocks, or a goroutine it started got in the way of the scheduler); this is not a verdict on the property", k, n, a[0])
+		}()
 		res := runShard(e, a[1], seed, k, n, total, time.Unix(0, dl))
 		writePartial(a[7], res)
 	case "exec": // internal: exec <id> <planfile>
 		if len(os.Args) != 4 {
 			usage()
 		}
+		go func() { // (same watchdog for a single plan executed in a fresh process)
+			time.Sleep(10 * time.Minute)
+			fatal2("watchdog: one plan still executing after 10 minutes (hang); not a verdict on the property")
+		}()
 		execCmd(os.Args[2], os.Args[3])
 	case "stress": // data-race companion of C07; build this binary with -race
 		fs := flag.NewFlagSet("stress", flag.ExitOnError)
